@@ -412,7 +412,7 @@ func (p *Path) errUnwrap(e Value) []Value {
 		}
 	}
 	// a regatta/3rd-party type with an Unwrap method
-	if f := p.eng.prog.LookupMethod(itf.T, nil, "Unwrap"); f != nil && f.Signature.Params().Len() == 0 {
+	if f := p.eng.lookupMethod(itf.T, "Unwrap"); f != nil && f.Signature.Params().Len() == 0 {
 		r := p.callSSA(nil, f, []Value{itf.V}, nil)
 		switch x := r.(type) {
 		case Iface:
@@ -441,7 +441,7 @@ func (p *Path) errorsIs(err, target Value, depth int) bool {
 			return true
 		}
 	}
-	if f := p.eng.prog.LookupMethod(e.T, nil, "Is"); f != nil && f.Signature.Params().Len() == 1 && f.Blocks != nil {
+	if f := p.eng.lookupMethod(e.T, "Is"); f != nil && f.Signature.Params().Len() == 1 && f.Blocks != nil {
 		r := p.callSSA(nil, f, []Value{e.V, target}, nil)
 		if rt, ok := r.(*Term); ok && p.branch(rt) {
 			return true
